@@ -494,6 +494,21 @@ def clause7_auth_gates(ctx, P):
         ctx.ob("C08.2 R-GATE", ha, Q.ordinal_site(ha, i, P) + ":only-without-live-fetch", Q.must_pass(P, ha, i.block, no_fetch),
                "peer.%s is written on a path that did not establish list_empty(&p->fetch_list): a peer that re-authenticates under a "
                "live fetch keeps receiving events of elements its new groups may not see" % P.term(ha, i.a[1])[3])
+    # a successful authenticate REPLACES the rights: every path that answers success has written all three masks
+    badv = None
+    nsucc = 0
+    for v in Q.path_views(ctx, P, ha):
+        if not any(True for _ in v.calls("create_success_response_from_request")):
+            continue
+        nsucc += 1
+        written = {P.term(ha, i.a[1])[3] for _, i in v.insts() if i.op == "store" and P.term(ha, i.a[1])[0] == "field"
+                   and P.term(ha, i.a[1])[2] == "struct.peer"}
+        if not {"fetch_groups", "set_groups", "call_groups"} <= written:
+            badv = (v, sorted({"fetch_groups", "set_groups", "call_groups"} - written))
+    ctx.ob("C08.2 R-COMMIT", ha, "success-replaces-all-rights", badv is None and nsucc > 0,
+           "authenticate answers success on a path that leaves peer.%s as it was: a connection that re-authenticates as a user without "
+           "that right keeps the right of the previous user" % (", ".join(badv[1]) if badv else ""),
+           witness=badv[0].witness() if badv else None)
     gg = P.fn("groups.c:get_groups")
     nset = 0
     for i in gg.all_insts():
